@@ -116,6 +116,7 @@ def run(ctx, prog):
         ctx.ob(rule, "findKey compares key slots only", ok, fn.where, why)
     ctx.floor(rule, "ObjectData::findKey instantiations", nf, 3)
     unlink(ctx, prog)
+    alias(ctx, prog)
     ctx.doc("R-STABLE", "no mutation path reaches a function that moves/frees slot blocks")
     ctx.doc("R-RO", "read-only entry points reach no write into document memory")
     ctx.doc("R-KEYVAL", "key lookup alternates key/value slots")
@@ -250,3 +251,99 @@ def unlink(ctx, prog, rule="R-UNLINK"):
                    why.get(what, "%d paths to the release, each re-seats it or excludes the case by its branch conditions" % len(results)))
     ctx.floor(rule, "CollectionData::removeOne", n, 1)
     ctx.doc(rule, "removeOne leaves no head_/tail_/next link to the slot it releases (path-wise, with the prev/next tests as path conditions)")
+
+
+VIEW_TYPES = ("JsonArrayConst", "JsonObjectConst", "JsonVariantConst", "JsonArray", "JsonObject", "JsonVariant", "JsonDocument")
+DEST_CLASSES = ("JsonArray", "JsonObject", "JsonDocument")
+
+
+def alias(ctx, prog, rule="R-ALIAS"):
+    """Assignment between values of the same document (C04: "including a
+    value's own ancestors and descendants").  A copy routine has a source
+    parameter of a document view type and a mutable destination (its object,
+    or a JsonVariant parameter).  If it empties the destination (clear(),
+    to<T>()) and reads the source afterwards, and no dominating test excludes
+    that the two designate the same storage, then assigning a value to itself
+    or an ancestor to its descendant loses the source before it is read."""
+    n = 0
+    seen = set()
+    for fn in sorted(prog.fns.values(), key=lambda f: f.key):
+        if fn.cfg is None or not fn.params:
+            continue
+        cls = fn.cls.split("::")[-1].split("<")[0]
+        srcs = []
+        for p in fn.params:
+            base = (p.get("tr") or p["t"]).replace("const ", "").replace("&", "").strip().split("::")[-1]
+            if base in VIEW_TYPES and p["n"] in ("src", "source", "rhs", "other", "value"):
+                srcs.append(p)
+        if not srcs:
+            continue
+        dst_is_this = cls in DEST_CLASSES and fn.name in ("set", "operator=", "copyFrom")
+        dst_params = [p for p in fn.params if p["n"] in ("dst", "dest") and (p.get("tr") or p["t"]).split("::")[-1].startswith("JsonVariant")]
+        if not dst_is_this and not dst_params:
+            continue
+        sd = {p["d"] for p in srcs}
+        # clear-like calls on the destination
+        clears = []
+        for i, st in fn.calls():
+            nm = st["callee"]["q"].split("::")[-1]
+            if nm not in ("clear", "to"):
+                continue
+            o = fn.s(fn.strip(st["obj"], casts=True)) if "obj" in st else {"k": "CXXThisExpr"}
+            on_this = o["k"] == "CXXThisExpr"
+            on_dst = o["k"] == "DeclRefExpr" and o["ref"]["d"] in {p["d"] for p in dst_params}
+            if (dst_is_this and on_this) or on_dst:
+                clears.append(i)
+        if not clears:
+            continue
+        # a use of the source evaluated after the clear
+        hazard = None
+        for c in clears:
+            pc = fn.block_of(c)
+            for j in fn.walk():
+                sj = fn.s(j)
+                if sj["k"] == "DeclRefExpr" and sj["ref"]["d"] in sd:
+                    pj = fn.block_of(j)
+                    if pc is None or pj is None:
+                        continue
+                    later = (pj[0] == pc[0] and pj[1] > pc[1]) or (pj[0] != pc[0] and pj[0] in fn.reach_from([pc[0]]))
+                    # the source passed to the very call whose object is the clear-like call
+                    par = fn.parent(c)
+                    same_call = False
+                    while par is not None:
+                        sp = fn.s(par)
+                        if sp["k"] in P.CALL_KINDS and any(j in set(fn.walk(a)) for a in sp.get("args", [])):
+                            same_call = True
+                        par = fn.parent(par)
+                    if later or same_call:
+                        hazard = (c, j)
+                        break
+            if hazard:
+                break
+        if not hazard:
+            continue
+        # identity guard
+        guarded = False
+        for cond, pol in fn.guards_of(hazard[0]):
+            cn = [fn.s(x) for x in fn.walk(cond)]
+            c0 = fn.s(fn.strip(cond, casts=True))
+            if c0["k"] in ("BinaryOperator", "CXXOperatorCallExpr") and c0.get("op") in ("==", "!=") and \
+                    any(x["k"] == "DeclRefExpr" and x["ref"]["d"] in sd for x in cn) and \
+                    any((x["k"] == "MemberExpr" and x.get("m") in ("data_", "resources_")) or
+                        (x["k"] in P.CALL_KINDS and x.get("callee", {}).get("q", "").split("::")[-1] in ("getData", "getOrCreateData")) for x in cn):
+                guarded = True
+        stype = (srcs[0].get("tr") or srcs[0]["t"]).replace("const ", "").replace("&", "").strip().split("::")[-1]
+        if fn.d.get("targs"):
+            stype = "T"         # one finding for all instantiations of a member template
+        inst = "%s(%s) reads its source before emptying the destination" % (fn.short.split("<")[0], stype)
+        if inst in seen:
+            continue
+        seen.add(inst)
+        n += 1
+        ctx.ob(rule, inst, guarded, fn.loc(hazard[0]),
+               "identity test dominates the clear" if guarded else
+               "%s empties the destination and %s is read afterwards; nothing excludes that the source is the destination or lies inside "
+               "it: `doc[0] = doc[0]` turns [[1,2,3]] into [[]], `a.set(a)` empties a, `doc[\"a\"] = doc[\"a\"][\"b\"]` yields {\"a\":[null]}" %
+               (fn.text(hazard[0])[:50], fn.s(hazard[1])["ref"]["n"]))
+    ctx.floor(rule, "copy routines with a document-view source", n, 3)
+    ctx.doc(rule, alias.__doc__.strip().replace("\n", " "))
